@@ -41,7 +41,7 @@ def base_env(known_sigs=(), extra=None):
 
 
 HANG_SIG = "hang:case-did-not-return-within-time-limit"
-HANG_REASON = "the case did not return within libFuzzer's 60 s per-input limit in 3 of 3 separate replays (deadlock / lost wake-up / unbounded loop); cases of this target normally take milliseconds"
+HANG_REASON = "the case did not return within 60 s in 3 of 3 separate replays and not within 300 s in a fourth (deadlock / lost wake-up / unbounded loop); cases of this target normally take milliseconds"
 
 
 def classify_output(text):
@@ -82,10 +82,10 @@ def classify_output(text):
     return "none", "", "", case
 
 
-def run_file(binary, path, env, timeout=120):
+def run_file(binary, path, env, timeout=120, unit_timeout=60):
     """Run the target on one saved input. -> (returncode, classification)"""
     try:
-        p = subprocess.run([binary, "-timeout=60", "-rss_limit_mb=6000", path], env=env, stdout=subprocess.PIPE, stderr=subprocess.STDOUT, timeout=timeout)
+        p = subprocess.run([binary, f"-timeout={unit_timeout}", "-rss_limit_mb=6000", path], env=env, stdout=subprocess.PIPE, stderr=subprocess.STDOUT, timeout=timeout)
         text = p.stdout.decode(errors="replace")
         rc = p.returncode
     except subprocess.TimeoutExpired as e:
@@ -286,8 +286,17 @@ def confirm_and_shrink(prop, binary, findings, known_sigs=(), extra_env=None, do
             elif kind == "timeout":
                 hangs += 1
         if reps == 0 and hangs == 3:
-            reps = 3
-            last = ("hang", HANG_SIG, HANG_REASON, f.get("case", ""))
+            # three replays exceeded 60 s.  A case that is merely slow returns when given five times as long; only one that does
+            # not is reported as a hang (a long case is a cost problem of the check, never a verdict about the code)
+            rc, (kind, sig, reason, case), text = run_file(binary, f["path"], env, timeout=340, unit_timeout=300)
+            if kind == "timeout":
+                reps = 3
+                last = ("hang", HANG_SIG, HANG_REASON, f.get("case", ""))
+            elif kind in ("violation", "sanitizer"):
+                reps = 1
+                last = (kind, sig, reason, case)
+            else:
+                f = dict(f, kind="slow")
         if reps == 0:
             flaky.append(f)
             continue
